@@ -1,4 +1,70 @@
-(** Harness glue for C06 (stub: no families yet). *)
-From Coq Require Import List String.
-From KV Require Import Glue.Val.
-Definition c06_run (fam : string) (args : list val) : option string := None.
+(** Harness glue for C06: split iterators run to exhaustion, pieces and remainders
+    rendered as views (offset:len) into the original string. *)
+From Coq Require Import List ZArith Bool String.
+From KV Require Import Base.Prelude Model.Search Model.Utf8 Model.Split Glue.Val.
+Import ListNotations.
+Local Open Scope string_scope.
+
+(** run a front-consuming iterator: each piece is a prefix of [this], the rest a suffix *)
+Fixpoint run_fwd {A} (next : A -> step_res A) (this_of : A -> list Z)
+         (fuel : nat) (s : A) (base : Z) : list (string * string) :=
+  match fuel with
+  | O => [("FUEL", "FUEL")]
+  | S f =>
+      match next s with
+      | Done => []
+      | StepPanic => [("PANIC", "PANIC")]
+      | Yield p s' =>
+          let base' := base + zlen (this_of s) - zlen (this_of s') in
+          (show_view base (zlen p), show_view base' (zlen (this_of s'))) :: run_fwd next this_of f s' base'
+      end
+  end.
+
+(** run a back-consuming iterator: each piece is a suffix of [this], the rest a prefix *)
+Fixpoint run_back {A} (next : A -> step_res A) (this_of : A -> list Z)
+         (fuel : nat) (s : A) (base : Z) : list (string * string) :=
+  match fuel with
+  | O => [("FUEL", "FUEL")]
+  | S f =>
+      match next s with
+      | Done => []
+      | StepPanic => [("PANIC", "PANIC")]
+      | Yield p s' =>
+          (show_view (base + zlen (this_of s) - zlen p) (zlen p), show_view base (zlen (this_of s')))
+            :: run_back next this_of f s' base
+      end
+  end.
+
+Definition steps_of (kind : string) (h d : list Z) : list (string * string) :=
+  let fuel := split_fuel h in
+  if String.eqb kind "split" || String.eqb kind "rsplit_rev" then
+    run_fwd split_next s_this fuel (split_init h d) 0
+  else if String.eqb kind "rsplit" || String.eqb kind "split_rev" then
+    run_back split_next_back s_this fuel (split_init h d) 0
+  else if String.eqb kind "term" then
+    run_fwd term_next t_this fuel (term_init h d) 0
+  else if String.eqb kind "rterm" then
+    run_back rterm_next t_this fuel (term_init h d) 0
+  else [("KIND", "KIND")].
+
+Definition show_pieces (l : list (string * string)) : string := show_list fst l.
+Definition show_steps (l : list (string * string)) : string :=
+  show_list (fun p => "(" ++ fst p ++ "," ++ snd p ++ ")") l.
+
+Definition kinds : list string := ["split"; "rsplit"; "split_rev"; "rsplit_rev"; "term"; "rterm"].
+
+Definition c06_pieces (h d : list Z) : string :=
+  show_fields (map (fun k => (k, show_pieces (steps_of k h d))) kinds).
+Definition c06_steps (h d : list Z) : string :=
+  show_fields (map (fun k => (k, show_steps (steps_of k h d))) kinds).
+
+Definition c06_run (fam : string) (args : list val) : option string :=
+  match args with
+  | [h; d] =>
+      if String.eqb fam "c06.pieces" then Some (c06_pieces (as_bytes h) (as_bytes d))
+      else if String.eqb fam "c06.steps" then Some (c06_steps (as_bytes h) (as_bytes d))
+      else if String.eqb fam "c06.pieceschar" then Some (c06_pieces (as_bytes h) (encode_m (as_Z d)))
+      else if String.eqb fam "c06.stepschar" then Some (c06_steps (as_bytes h) (encode_m (as_Z d)))
+      else None
+  | _ => None
+  end.
